@@ -151,10 +151,15 @@ def eigen_sym33_non_unit(tensor):
     k1 = cxy_cxy           + crow1[1]*crow1[1] + cyz_cyz
     k2 = czx_czx           + cyz_cyz           + crow2[2]*crow2[2]
     
+    # Comparisons of nearly equal quantities carry a relative bias: inside compiled
+    # batches XLA may evaluate the same comparison more than once with different
+    # rounding, and an exact tie (symmetric inputs) would then select inconsistently.
+    tieBias = 1.0 + 1.0e-8
+
     # returns zero or nan
-    k0gk1 = k1<=k0
-    k0gk2 = k2<=k0
-    k1gk2 = k2<=k1
+    k0gk1 = k1<=k0*tieBias
+    k0gk2 = k2<=k0*tieBias
+    k1gk2 = k2<=k1*tieBias
     
     k0_largest = k0gk1 & k0gk2
     k1_largest = k1gk2 & (~ k0gk1)
@@ -198,7 +203,7 @@ def eigen_sym33_non_unit(tensor):
     a0 = row2[0]*row2[0] + row2[1]*row2[1] + row2[2]*row2[2]
     a1 = row3[0]*row3[0] + row3[1]*row3[1] + row3[2]*row3[2]
 
-    a0lea1 = a0 <= a1
+    a0lea1 = a0*tieBias <= a1
 
     a_row2 = if_then_else(a0lea1, row3, row2)
     ai_ai = 1.0 / if_then_else(a0lea1, a1, a0)
@@ -237,13 +242,16 @@ def eigen_sym33_non_unit(tensor):
     rm2xx2 = rm2xx*rm2xx
     rm2yy2 = rm2yy*rm2yy
 
-    fac1 = if_then_else(rm2xx2 < rm2yy2, k_a_rm2xy*ai_ai, rm2xx)
-    fac2 = if_then_else(rm2xx2 < rm2yy2, rm2yy, ki_ki*k_a_rm2xy)
+    fac1 = if_then_else(rm2xx2*tieBias < rm2yy2, k_a_rm2xy*ai_ai, rm2xx)
+    fac2 = if_then_else(rm2xx2*tieBias < rm2yy2, rm2yy, ki_ki*k_a_rm2xy)
 
     evec0 = fac1*a_row2 - fac2*k_row1
 
-    rm2xx2iszero = rm2xx2 == (0.0)
-    rm2xy_rm2xyiszero = rm2xy_rm2xy == (0.0)
+    # degenerate reduced problem: tested against rounding level of the deviator
+    # (not exact zero), for the same reason as tieBias above
+    degTol = -1.0e-28*c2
+    rm2xx2iszero = rm2xx2 <= degTol
+    rm2xy_rm2xyiszero = rm2xy_rm2xy <= degTol
     both_zero = rm2xx2iszero & rm2xy_rm2xyiszero
 
     # check degeneracy
